@@ -26,7 +26,7 @@ SHEET_NAMES = ["S1", "Data", "My & Sheet", "O'Brien", "a<b>", "\u00dcbersicht", 
 URL_FORMS = ["http://h{n}.example/", "http://h{n}.example/p?a={n}&b=2", "https://\u00fcml.example/{n}/\u00e9",
              "mailto:x{n}@example.org?subject=a<b>&body=\"q\"", "file:///C:/dir/it's{n}.xlsx", "http://h{n}.example/#frag",
              "http://h{n}.example/\U0001F600"]
-AUTHORS = ["Ann", "Bob & Co", "<anon>", "\u00c5sa", "", "O'Neil", "\u8457\u8005", " padded ", "tab\t", "\nlead", " ", "Bob & S\u00f6hne <x> "]
+AUTHORS = ["alice", "bob", "Bob", "carol", "Dave", "\u00e9mile", "Zed", "Ann", "Bob & Co", "<anon>", "\u00c5sa", "", "O'Neil", "\u8457\u8005", " padded ", "tab\t", "\nlead", " ", "Bob & S\u00f6hne <x> "]
 TEXTS = ["note {n}", "x & y <z> {n}", "line1\nline2 {n}", "\u00e4\u00f6\u00fc {n}", "\"quoted\" {n}", "it's {n}", "\U0001F600 {n}"]
 PROMPTS = ["", "pick {n}", "a & b {n}", "<{n}>", "\u00fcber {n}", "say \"x\" {n}", "it's {n}", " lead {n}", "trail {n} ", "  both {n}  "]
 TIPS = ["", "", "tip {n}", " padded tip {n} ", "a & b <c> \"d\" {n}", "\u00fcber \U0001F600 {n}", "it's {n}"]
@@ -237,6 +237,42 @@ def link_case(rng):
     return {"steps": steps}
 
 
+MIXED_AUTHORS = ["alice", "Bob", "carol", "Dave", "erin", "bob", "BOB", "Alice", "Zed", "zoe", "adam", "Zara", "_x", "1st",
+                 "\u00c9mile", "\u00e9mile", "\u00e4lva", "\u00dcnal", "\u00d8rn", "\u00f8rn", "\u0416\u0435\u043d\u044f", "\u0436\u0435\u043d\u044f",
+                 "Bob & Co", "bob <b>", "O'Neil", "o'neil", ""]
+
+
+def author_case(rng):
+    """One or two sheets with 3..6 comments by 3..6 DISTINCT authors whose names mix upper- and lower-case (also
+    non-ASCII) initials, differ in case only, or sort differently byte-wise and case-insensitively, plus further comments
+    by authors already used (the author table of the comments part has one entry per author; every comment points into it)."""
+    ns = rng.randint(1, 2)
+    steps = [{"a": "Init", "sheets": rng.sample(SHEET_NAMES, ns)}]
+    for si in range(1, ns + 1):
+        authors = rng.sample(MIXED_AUTHORS, rng.randint(3, 6))
+        who = authors + [rng.choice(authors) for _ in range(rng.randint(0, 3))]
+        rng.shuffle(who)
+        cells = rng.sample([(r, c) for r in range(1, 9) for c in range(1, 7)], len(who))
+        for k, (au, (r, c)) in enumerate(zip(who, cells)):
+            steps.append({"a": "AddComment", "s": si, "r": r, "c": c, "author": au, "runs": [{"t": f"by {au} #{k}", "b": False}]})
+    steps.append({"a": "SaveLoad", "light": rng.random() < 0.3})
+    if rng.random() < 0.3:
+        steps.append({"a": "SaveLoad", "light": False})
+    return {"steps": steps}
+
+
+def author_fixed_cases():
+    out = []
+    for names in (["alice", "Bob", "carol", "Dave", "erin"], ["Alice", "bob", "Carol"], ["bob", "Bob", "BOB", "alice"],
+                  ["Zed", "adam", "Zara", "zoe"], ["\u00e9mile", "\u00c9mile", "Zed", "alice", "\u00d8rn"]):
+        steps = [{"a": "Init", "sheets": ["S1"]}]
+        for k, au in enumerate(names + [names[-1], names[0]]):
+            steps.append({"a": "AddComment", "s": 1, "r": k + 2, "c": k + 2, "author": au, "runs": [{"t": f"note of {au}", "b": False}]})
+        steps.append({"a": "SaveLoad", "light": False})
+        out.append({"steps": steps})
+    return out
+
+
 def exemplars():
     """Cases that always exercise the open findings (KF1 needs a non-identity permutation: three sheets with six
     distinct external targets each - the chance that all three come back unpermuted is (1/720)^3)."""
@@ -369,10 +405,23 @@ def gen_cases(chk):
     n3 = len(cases)
     for k in range(60 if quick else 600):
         cases.append(link_case(rng))
+    ra = vlib.run_tlc("MC_Annot", "MC_Annot_authors_replay.cfg", workers=4, coverage=False, timeout=1800)
+    if not ra.ok or not ra.replays:
+        raise vlib.ToolError("replay generation (authors) failed: " + (ra.violation or ra.out[-500:]))
+    au_paths = ra.replays if quick else ra.replays
+    if quick and len(au_paths) > 500:
+        au_paths = rng.sample(au_paths, 500)
+    nau = len(cases)
+    cases += [{"steps": rp} for rp in au_paths]
+    for k in range(80 if quick else 1500):
+        cases.append(author_case(rng))
+    cases += author_fixed_cases()
+    nau = len(cases) - nau
     sc = scope_cases() + sheetpr_and_text_cases()
     cases += sc
     cases += exemplars()
-    chk.extra["cases"] = {"hyperlink_permutation_cases": len(cases) - n3 - 4 - len(sc), "same_name_in_several_scopes_and_sheetpr_and_text_edge_cases": len(sc),"tlc_paths_2_operations_then_save": n1, "of_all_such_paths": total_paths,
+    chk.extra["cases"] = {"hyperlink_permutation_cases": len(cases) - n3 - 4 - len(sc) - nau,
+                          "several_mixed_case_authors_per_sheet_cases": nau, "same_name_in_several_scopes_and_sheetpr_and_text_edge_cases": len(sc),"tlc_paths_2_operations_then_save": n1, "of_all_such_paths": total_paths,
                           "tlc_simulated_histories_40_operations": n2 - n1, "generated_workbooks": n3 - n2,
                           "finding_exemplars": 4}
     for i, c in enumerate(cases):
@@ -418,8 +467,9 @@ def run(chk):
     build = ["MCAddSheet", "MCRename", "MCRemoveSheet", "MCSetState", "MCSetActive", "MCAddMerge", "MCAddLink", "MCAddComment",
              "MCAddName"]
     rest = ["MCAddDv", "MCAddCf", "MCSetAf", "MCSetCode", "MCSetTab", "MCAddView", "MCSetPs", "MCSetHf", "MCSetProt", "MCSetWbProt"]
-    for cfg, must in ((("MC_Annot.cfg", build), ("MC_Annot_rest.cfg", rest)) if quick else
-                      (("MC_Annot_d4.cfg", build), ("MC_Annot_rest_d4.cfg", rest), ("MC_Annot_all.cfg", build + rest))):
+    for cfg, must in ((("MC_Annot.cfg", build), ("MC_Annot_rest.cfg", rest), ("MC_Annot_authors.cfg", ["MCAddComment"])) if quick else
+                      (("MC_Annot_d4.cfg", build), ("MC_Annot_rest_d4.cfg", rest), ("MC_Annot_all.cfg", build + rest),
+                       ("MC_Annot_authors.cfg", ["MCAddComment"]))):
         r = vlib.tlc_mc("MC_Annot", cfg, workers=4, check=chk, must_take=must, timeout=7200, heap="8g")
         if r is not None and saveload_taken(r) == 0:
             raise vlib.ToolError(f"vacuous model checking run: SaveLoad never taken in {cfg}")
@@ -449,7 +499,7 @@ def run(chk):
                 "active tab, merges, hyperlinks, comments, defined names at any home/scope, validations, conditional formats, "
                 "auto filter, tab colour, code name, view, page setup, header/footer, sheet and workbook protection, macro payload) with "
                 "one or more "
-                "save+reload steps; cases = TLC paths (2 operations then a save, all pools), TLC-simulated histories of 40 "
+                "save+reload steps; cases = TLC paths (2 operations then a save, all pools; 3 comments by a pool of 4 mixed-case authors then a save), TLC-simulated histories of 40 "
                 "operations, generated workbooks with up to 60 items per kind and sheet and XML-special / non-ASCII texts, "
                 "link-heavy cases re-run in fresh processes; distinct = different step lists, non-trivial = at least one "
                 "building operation before the save")
